@@ -219,7 +219,9 @@ Definition changed (st : state) : bool := negb (ddevs_eqb (dumps st) (saved st))
 Definition mark_as_saved (st : state) : state :=
   {| heap := heap st; cur := cur st; saved := dumps st; file := file st; synced := contents st |}.
 
-Inductive exn := DeviceIdMissing | SettingsError | ValueError.
+(* Fault: the environment makes a file-system call of save()/load() fail (OSError), or the
+   file read by load() does not parse (JSONDecodeError) *)
+Inductive exn := DeviceIdMissing | SettingsError | ValueError | Fault.
 Inductive res (A : Type) := Ok (a : A) | Raise (e : exn).
 Arguments Ok {A} a.
 Arguments Raise {A} e.
@@ -326,6 +328,9 @@ Inductive op :=
 | SetF (h : nat) (sec key : string) (v : val) (* <object h>.<sec>.<key> = v *)
 | Save | Load                                 (* await storage.save() / load() *)
 | Fresh                                       (* a new storage object on the same file *)
+| SaveFault                                   (* await storage.save() while the environment makes open / write /
+                                                 os.replace of _save_file raise *)
+| LoadFault                                   (* await storage.load() while reading the file raises or yields garbage *)
 | Changed                                     (* storage.changed *)
 | Scan (c : cfg).                             (* get_settings + config.apply, as scan()/connect() do *)
 
@@ -341,6 +346,20 @@ Definition step (k : kind) (o : op) (st : state) : obs * state :=
   | SetF h sec key v => match set_field h sec key v st with (Ok _, st') => (OUnit, st') | (Raise e, st') => (ORaise e, st') end
   | Save => (OUnit, save k st)
   | Load => match load k st with (Ok _, st') => (OUnit, st') | (Raise e, st') => (ORaise e, st') end
+  (* save(): `if self.changed: _save_file(); mark_as_saved()` - the exception of _save_file
+     propagates before mark_as_saved; the write goes to a temporary file that is moved in
+     place last (C15), so the storage file is as before.  Unchanged storage: no I/O, no fault. *)
+  | SaveFault =>
+      match k with
+      | Memory => (OUnit, save k st)
+      | File => if changed st then (ORaise Fault, st) else (OUnit, st)
+      end
+  (* load(): the exception is raised before storage_model is assigned; no file: no I/O *)
+  | LoadFault =>
+      match k with
+      | Memory => (OUnit, st)
+      | File => match file st with Some _ => (ORaise Fault, st) | None => (OUnit, st) end
+      end
   | Fresh => (OUnit, fresh (heap st) (match k with File => file st | Memory => None end))
   | Changed => (OBool (changed st), st)
   | Scan c =>
@@ -373,7 +392,7 @@ Definition service_eqb (a b : service) : bool :=
 
 Definition exn_eqb (a b : exn) : bool :=
   match a, b with
-  | DeviceIdMissing, DeviceIdMissing | SettingsError, SettingsError | ValueError, ValueError => true
+  | DeviceIdMissing, DeviceIdMissing | SettingsError, SettingsError | ValueError, ValueError | Fault, Fault => true
   | _, _ => false
   end.
 
